@@ -129,6 +129,16 @@ func c05OutCase(run *ev.Run, r *rand.Rand, reg *svc.Registry, lb *wire.Loopback,
 		code := connect.Code(1 + r.Intn(16))
 		cn := classNames[r.Intn(len(classNames))]
 		herr = connect.NewError(code, errors.New(texts[cn]))
+		if r.Intn(4) == 0 {
+			// a coded error whose cause is a context error (a backend call that
+			// timed out, say) keeps its own code, text, details and metadata
+			cause := context.DeadlineExceeded
+			if r.Intn(2) == 0 {
+				cause = context.Canceled
+			}
+			herr = connect.NewError(code, fmt.Errorf("%s: %w", texts[cn], cause))
+			outcome = "error-wrapping-context-error"
+		}
 		details = c02Details(r, r.Intn(3), uint64(r.Int63()))
 		for _, d := range details {
 			herr.AddDetail(d)
@@ -139,7 +149,7 @@ func c05OutCase(run *ev.Run, r *rand.Rand, reg *svc.Registry, lb *wire.Loopback,
 			errMeta["Grpc-Status"] = []string{"9"}
 			errMeta["Grpc-Message"] = []string{"upstream"}
 			errMeta["Grpc-Status-Details-Bin"] = []string{"CAk"}
-			outcome = "error-forwarded"
+			outcome += "-forwarded"
 		}
 		for k, vs := range errMeta {
 			for _, v := range vs {
